@@ -177,6 +177,9 @@ def run_check(harness_name, tier, seed=0, jobs=None, only=None):
                           "discharged": d["discharged"], "queries": d["queries"], "wall_s": round(d["wall"], 2)})
         if d["paths"] == 0 and not d["errors"] and not d.get("prefix"):
             harness_errors.append("case %s %s: no path reached the obligations (vacuous)" % (d["case"][0], json.dumps(d["case"][1])))
+    n_unknown_cands = sum(1 for c in candidates if c["known"] is None)
+    if agg["sat"] > 0 and n_unknown_cands == 0:
+        harness_errors.append("%d obligations were sat but no counterexample candidate was recorded" % agg["sat"])
     if agg["twins"] != agg["twins_sat"]:
         harness_errors.append("reachability twins: %d of %d not sat" % (agg["twins"] - agg["twins_sat"], agg["twins"]))
     if agg["validation_mismatch"]:
